@@ -28,7 +28,6 @@ import (
 	"crypto/tls"
 	"encoding/json"
 	"fmt"
-	"io"
 	"net"
 	"os"
 	"path/filepath"
@@ -53,6 +52,10 @@ type WOp struct {
 	DB      string `json:"db,omitempty"`
 	Size    int    `json:"size"`
 	SleepUs int64  `json:"sleep_us,omitempty"`
+	// AlignK > 0: issue this append AlignK quarter-steps of simulated time
+	// before the reader's pending read deadline expires (an idle stream whose
+	// next entry arrives just as the reader's read times out).
+	AlignK int `json:"align_k,omitempty"`
 }
 
 type WriterPlan struct {
@@ -151,6 +154,17 @@ func genC24(r *simrt.Rand, tier string) any {
 	} else {
 		p.Mode = "adversarial"
 	}
+	idle := r.Chance(6)
+	// debugging aid: pin the configuration (the plan in a replay file is
+	// self-contained, so replays do not depend on this)
+	switch os.Getenv("VERIF_C24_FORCE") {
+	case "passive":
+		p.Mode = "passive"
+	case "adversarial":
+		p.Mode = "adversarial"
+	case "idle":
+		p.Mode, idle = "passive", true
+	}
 	p.Checkpoint = []int{0, 1, 1, 2, 3, 4, 5, 6, 7, 8}[r.Intn(10)]
 	p.AckMs = []int{5, 100, 100, 1000}[r.Intn(4)]
 	maxOps := 40
@@ -167,12 +181,17 @@ func genC24(r *simrt.Rand, tier string) any {
 		if r.Chance(15) {
 			p.Readers = 2
 		}
-		if r.Chance(6) {
+		if idle {
+			if r.Chance(70) {
+				// one producer: nothing but the idle gap distinguishes this run
+				nw = 1
+				p.Writers = genOps(r, 1+r.Intn(12), 1, r.Chance(20))
+			}
 			// an idle stream: the next entry arrives about when the read
 			// deadlines of both ends (read from the running code: 30 s) expire
 			w := r.Intn(len(p.Writers))
 			if n := len(p.Writers[w].Ops); n > 0 {
-				p.Writers[w].Ops[r.Intn(n)].SleepUs = int64(30_000_000 - r.Intn(120_000) + r.Intn(20_000))
+				p.Writers[w].Ops[r.Intn(n)].AlignK = 1 + r.Intn(64)
 			}
 			if p.AckMs < 100 {
 				p.AckMs = 100
@@ -297,6 +316,7 @@ type c24run struct {
 	curPayload  map[int][]byte // producer -> pristine copy of the payload being appended
 	hookCalls   map[int]int    // producer -> hook calls so far
 	hookTrouble []string
+	stepMaxNs   int64
 }
 
 func payloadFor(seed int64, w, o, size int) []byte {
@@ -494,6 +514,9 @@ func (st *c24run) body(dir string) {
 				if op.SleepUs > 0 {
 					simrt.Sleep(time.Duration(op.SleepUs) * time.Microsecond)
 				}
+				if op.AlignK > 0 {
+					st.alignToReadDeadline(op.AlignK)
+				}
 				pl := payloadFor(p.PaySeed, wi, oi, op.Size)
 				st.curPayload[wi] = append([]byte(nil), pl...)
 				before := st.hookCalls[wi]
@@ -576,6 +599,28 @@ func (st *c24run) body(dir string) {
 	simrt.Event("END quiesced=%v dropped=%d received=%d", st.quiesced, st.dropped, st.received)
 }
 
+// alignToReadDeadline parks the calling producer until k quarter-steps before
+// reader 0's pending read deadline (re-evaluated when traffic re-arms it).
+func (st *c24run) alignToReadDeadline(k int) {
+	off := time.Duration(int64(k) * st.stepMaxNs / 4)
+	for i := 0; i < 8; i++ {
+		ls := st.linksOf(0)
+		if len(ls) == 0 || !ls[len(ls)-1].open() {
+			return
+		}
+		e := ls[len(ls)-1].ends[0]
+		if e.rdl.IsZero() {
+			return
+		}
+		d := e.rdl.Add(-off).Sub(simrt.Now())
+		if d <= 0 {
+			return
+		}
+		simrt.Event("ALIGN wait %dns", int64(d))
+		simrt.Sleep(d)
+	}
+}
+
 type walRecorder func([]byte)
 
 func (f walRecorder) AppendRaw(p []byte) error { f(p); return nil }
@@ -643,6 +688,11 @@ func wireOrder(l *link, hookWriter map[string]int) string {
 	return "the writer's frames on " + l.name() + " carry strictly increasing sequence numbers"
 }
 
+func harnessError(msg string) {
+	fmt.Fprintf(os.Stderr, "HARNESS-ERROR %s\n", msg)
+	os.Exit(2)
+}
+
 func judgeC24(st *c24run, out *simkit.Outcome) {
 	p := st.p
 	mode := "passive"
@@ -653,7 +703,7 @@ func judgeC24(st *c24run, out *simkit.Outcome) {
 	hookWriter := map[string]int{}
 	for _, h := range st.hooks {
 		if _, dup := genuine[h.Hash]; dup {
-			panic("HARNESS: two hook calls with the same payload")
+			harnessError("two hook calls with the same payload")
 		}
 		genuine[h.Hash] = h.Idx
 		hookWriter[h.Hash] = h.Writer
@@ -695,8 +745,7 @@ func judgeC24(st *c24run, out *simkit.Outcome) {
 			seen[a.Hash] = ai
 			ts, ok := trueSeq[a.Hash]
 			if !ok {
-				out.Violate("C24."+mode+".applied-entry-never-sent", "reader %d applied payload %s (hook #%d) which the writer never put on the wire", ri, a.Hash, genuine[a.Hash])
-				continue
+				harnessError(fmt.Sprintf("reader %d applied payload %s (hook #%d) which the sender-side tap never saw", ri, a.Hash, genuine[a.Hash]))
 			}
 			if ts <= lastSeq {
 				out.Violate("C24."+mode+".applied-out-of-sequence-order", "reader %d applied seq %d (hook #%d, producer %d) after seq %d (hook #%d, producer %d)", ri, ts, genuine[a.Hash], hookWriter[a.Hash], lastSeq, genuine[lastHash], hookWriter[lastHash])
@@ -749,8 +798,14 @@ func judgeC24(st *c24run, out *simkit.Outcome) {
 				reason := "n/a"
 				if l.closedBy == "reader" {
 					reason = dropReason(rs.log.lines)
+					if reason == "no-reason-logged" && l.ends[0].midTO > 0 {
+						reason = "after-read-deadline-expired-mid-frame"
+					}
 				} else {
 					reason = "writer-side"
+					if l.ends[1].midTO > 0 {
+						reason = "after-ack-read-deadline-expired-mid-frame"
+					}
 				}
 				out.Violate("C24.passive.connection-dropped.by-"+l.closedBy+"."+reason,
 					"reader %d: healthy connection %s was closed by the %s at t=%dns; %s; reader log: %s; writer log: %s",
@@ -790,7 +845,7 @@ func runC24(planAny any, cfg simrt.Config) *simkit.Outcome {
 	}
 	dir := scratch()
 	defer os.RemoveAll(dir)
-	st := &c24run{p: p}
+	st := &c24run{p: p, stepMaxNs: cfg.StepMaxNs}
 	cfg.MaxSteps = 400_000
 	res := simrt.Run(cfg, func() { st.body(dir) })
 	security.SimHook_Dial = nil
@@ -841,6 +896,11 @@ func runC24(planAny any, cfg simrt.Config) *simkit.Outcome {
 	}
 	out.Stats["probe.checkpoints_sent"] += int64(cps)
 	out.Stats["mode."+mode]++
+	for _, k := range []string{"probe.read_deadline_expired", "probe.read_deadline_expired_mid_frame"} {
+		if v := res.Stats[k]; v > 0 {
+			out.Stats[k+"."+mode] += v
+		}
+	}
 	if p.Mode == "passive" {
 		if !st.quiesced && len(out.Violations) == 0 {
 			out.Discard = "not-quiesced"
@@ -916,6 +976,9 @@ func shrinkC24(planAny any) []any {
 				if o.SleepUs != 0 {
 					o.SleepUs, ok = 0, true
 				}
+				if o.AlignK > 1 {
+					o.AlignK, ok = o.AlignK-1, true
+				}
 			}
 		}
 		return ok
@@ -950,5 +1013,3 @@ func descC24(planAny any) any {
 		"checkpoint": p.Checkpoint, "early": p.Early, "faults": kinds, "latency_us": p.LatencyUs, "conn_cap": p.ConnCap,
 		"apply_delay_us": p.ApplyDelayUs, "reconnect_ms": p.ReconnectMs}
 }
-
-var _ = io.Discard
